@@ -252,6 +252,11 @@ func ruleConvOnce(c *Ctx, r *R) {
 					if !conv[callee][j] || !isValue(a.Type()) {
 						continue
 					}
+					// a helper of the module with other parameters may convert on some of its paths only (it returns early
+					// for the names it does not handle): counted when it converts on every path to a return
+					if recv := callee.Signature.Recv(); len(callee.Params) > 1 && (recv == nil || !typeIs(recv.Type(), ottoPath, "Value")) && !mustConvert(callee, j, conv) {
+						continue
+					}
 					if id := ident(a, 0); id != "" {
 						byID[id] = append(byID[id], use{ins, callee.Name(), a})
 					}
@@ -612,4 +617,39 @@ func callOrdinal(call *ssa.Call) string {
 		}
 	}
 	return cl.Name()
+}
+
+// mustConvert: every path of fn from its entry to a return passes a call that converts parameter i.
+func mustConvert(fn *ssa.Function, i int, conv map[*ssa.Function]map[int]bool) bool {
+	if i >= len(fn.Params) || len(fn.Blocks) == 0 {
+		return false
+	}
+	p := fn.Params[i]
+	isConv := func(ins ssa.Instruction) bool {
+		ci, ok := ins.(ssa.CallInstruction)
+		if !ok {
+			return false
+		}
+		cc := ci.Common()
+		callee := cc.StaticCallee()
+		if callee == nil || conv[callee] == nil {
+			return false
+		}
+		for j, a := range cc.Args {
+			if conv[callee][j] && (a == ssa.Value(p) || sameSSA(a, p, 0)) {
+				return true
+			}
+		}
+		return false
+	}
+	for _, b := range fn.Blocks {
+		ret, ok := b.Instrs[len(b.Instrs)-1].(*ssa.Return)
+		if !ok {
+			continue
+		}
+		if reachableWithout(fn, ret, isConv) {
+			return false
+		}
+	}
+	return true
 }
